@@ -1221,7 +1221,7 @@ fn shrink_chunk(c: &Chunk) -> Vec<Chunk> {
     for items in shrink_vec(&c.items) {
         out.push(Chunk { ssrc: c.ssrc, items });
     }
-    for (k, it) in c.items.iter().enumerate().take(if c.items.len() > 200 { 2 } else { usize::MAX }) {
+    for (k, it) in c.items.iter().enumerate().take(if c.items.len() > 200 { 2 } else if c.items.len() > 24 { 8 } else { usize::MAX }) {
         for s in shrink_item(it) {
             let mut items = c.items.clone();
             items[k] = s;
@@ -1299,7 +1299,11 @@ impl Spec {
         let mut out = Vec::new();
         // per-element candidates each carry a copy of the whole list: for a list of thousands of
         // elements only the halving / dropping candidates are offered until it has become small
-        let per_element = if self.weight() > 2000 { 2 } else { usize::MAX };
+        let per_element = match self.weight() {
+            w if w > 2000 => 2,
+            w if w > 64 => 16,
+            _ => usize::MAX,
+        };
         match self {
             Spec::Sr { ssrc, ntp, rtp, pc, oc, blocks, padding } => {
                 let mk = |ssrc: u32, ntp: u64, rtp: u32, pc: u32, oc: u32, blocks: Vec<Rb>, padding: u8| Spec::Sr { ssrc, ntp, rtp, pc, oc, blocks, padding };
